@@ -69,8 +69,24 @@ func (ex *Exec) defInst() map[string]string {
 	return root.defMap
 }
 
-func (ex *Exec) evalBool(env *Env, cl *Clause) Term {
+func (ex *Exec) evalBool(env *Env, cl *Clause) (out Term) {
 	env.where = fmt.Sprintf("%s:%d", cl.File, cl.Line)
+	// A clause that has to be PROVED (ensures / assert-call / invariant) and names a local variable or a call that the
+	// function no longer has cannot be established for the current code: it becomes an unprovable goal (a fresh
+	// unconstrained boolean), i.e. a failed named obligation, instead of an engine error. Assumed clauses
+	// (requires / domain) that do not bind stay engine errors.
+	if cl.Kind == "ensures" || cl.Kind == "assert-call" || cl.Kind == "invariant" {
+		defer func() {
+			if r := recover(); r != nil {
+				if u, ok := r.(unsupportedErr); ok && (strings.Contains(u.msg, "unknown identifier") || strings.Contains(u.msg, "no such call seen")) {
+					ex.c.note("clause %q does not bind to the current code (%s): reported as an unprovable obligation", cl.Text, u.msg)
+					out = ex.c.freshConst("unbound", SBool)
+					return
+				}
+				panic(r)
+			}
+		}()
+	}
 	v := env.eval(cl.Expr)
 	if v.T.Sort != SBool {
 		panic(unsupported("%s: clause %q is not boolean", env.where, cl.Text))
@@ -702,6 +718,18 @@ func (e *Env) call(x *ast.CallExpr) Val {
 			root = root.parent
 		}
 		if v, ok := root.lastResult[nm]; ok {
+			if len(x.Args) == 2 {
+				// resultof(callee, i): the i-th result of a multi-result call
+				iv := e.eval(x.Args[1])
+				if iv.Const == nil || len(v.Tuple) == 0 {
+					panic(e.fail("resultof(%s, i): needs a constant index into a multi-result call", nm))
+				}
+				n, _ := constant.Int64Val(iv.Const)
+				if n < 0 || int(n) >= len(v.Tuple) {
+					panic(e.fail("resultof(%s, %d): index out of range", nm, n))
+				}
+				return v.Tuple[n]
+			}
 			return v
 		}
 		panic(e.fail("resultof(%s): no such call seen before this point", nm))
